@@ -47,13 +47,15 @@ def gen_program(rng, profile, index=None):
         src = 'agen'
     prog = {'world': 'iter', 'dir': direction, 'src': src, 'elems': elems, 'fail_at': None,
             'delays': [0.0] * (n + 1), 'tick': 4 * Q, 'explicit_loop': rng.random() < 0.5,
-            'consumer_delay': _w(rng, [(0.0, 6), (Q, 2), (8 * Q, 1)])}
+            'consumer_delay': _w(rng, [(0.0, 6), (Q, 2), (8 * Q, 1), (0.05, 1)])}
     if src == 'range':
         prog['elems'] = list(range(n))
     if src not in ('list', 'range'):
         if rng.random() < 0.5:
             prog['fail_at'] = rng.randrange(n + 1)
-        prog['delays'] = [_w(rng, [(0.0, 6), (Q, 2), (8 * Q, 2), (24 * Q, 1)]) for _ in range(n + 1)]
+        # dyadic values plus multiples of 0.05 s (the polling constant this code base uses), so that a producer
+        # step can end exactly when a consumer-side poll expires
+        prog['delays'] = [_w(rng, [(0.0, 6), (Q, 2), (8 * Q, 2), (24 * Q, 1), (0.05, 2), (0.1, 1), (0.25, 1)]) for _ in range(n + 1)]
     return prog
 
 
@@ -291,7 +293,7 @@ class IterWorld:
             if self.ticks and getattr(self, 't_end', None) is not None:
                 gaps.append(self.t_end - self.ticks[-1])
             worst = max(gaps) if gaps else 0.0
-            if worst > p['tick']:
+            if worst > p['tick'] + 1e-9:
                 self.viol('iter.loop_blocked', 'the event loop was blocked while the synchronous iterator was blocked',
                           f'ticker (every {p["tick"]}) saw a gap of {worst}; source delays {p["delays"]}')
             if self.consumer_thread in self.src_threads and (len(self.values) or fail_at is not None):
